@@ -408,3 +408,74 @@ def validate_row(C, i, seed, pid, level):
     else:
         ck.validated += 1
     return ck.export()
+
+
+# ------------------------------------------------------------------------------------------------ Run scaffold
+class RunScaffold:
+    """Interpreter::Run executed symbolically. `decoders[opcode]` (a 65536-entry vector built by 1.4 G instructions
+    natively) is answered from the real decode table: for a concrete opcode the unique matching row (C02: this is what
+    Decode<Interpreter>(opcode) returns), for a symbolic opcode the row chosen by the caller through `force_row`."""
+
+    def __init__(s, E):
+        s.E = E
+        s.ex, s.st0, s.ctx = E.base()
+        s.vecnames = [n for n in E.mod.funcs if n.startswith('@_ZNKSt6vectorI7MatcherIN6Teakra11InterpreterEE') and n.endswith('ixEm')]
+        s.force_row = None
+        s.undefined_ptr = None
+
+    def __enter__(s):
+        E = s.E
+
+        def vecidx(e, st, a):
+            idx = a[1]
+            if s.force_row is not None:
+                st.log.append(('DEC', list(st.pc), idx))
+                return st, E.rows[s.force_row]['ptr']
+            if not is_c(idx):
+                idx2 = z3.simplify(bv(idx, 64))
+                if not z3.is_bv_value(idx2):
+                    raise Abort('decoders[symbolic opcode] without force_row')
+                idx = idx2.as_long()
+            m = [r for r in E.rows if (idx & r['mask']) == r['expected'] and all((idx & mm) != uu for mm, uu in r['rejectors'])]
+            if len(m) != 1:
+                raise Abort('opcode %#06x decodes to %d rows' % (idx, len(m)))
+            st.log.append(('DEC', list(st.pc), idx))
+            return st, m[0]['ptr']
+        for n in s.vecnames:
+            s.ex.intercepts[n] = vecidx
+        return s
+
+    def __exit__(s, *a):
+        for n in s.vecnames:
+            s.ex.intercepts.pop(n, None)
+
+    def program(s, st, base, words):
+        """store concrete program words at concrete addresses (pmem becomes Store(...) over the symbolic array)"""
+        reg = st.wregion(s.ctx['pm'])
+        arr = reg.cells[0][1]
+        for k, w in enumerate(words):
+            arr = z3.Store(arr, z3.BitVecVal(base + k, 32), z3.BitVecVal(w, 16) if is_c(w) else w)
+        reg.cells[0] = (0, arr)
+
+    def run(s, st, cycles):
+        s.ex.exits, s.ex.oblig = [], []
+        n0 = s.ex.ninstr
+        r = s.ex.call(st, '@runn', [s.ctx['interp'], cycles])
+        return (None if (r is None or r is DEAD) else r[0]), s.ex.ninstr - n0
+
+
+def concrete_pread(E):
+    """make ProgramRead return a Python int when the address and the stored word are concrete (program laid out by
+    RunScaffold.program): control flow of Run then stays concrete"""
+    ex, st0, ctx = E.base()
+    pm = ctx['pm']
+
+    def pread(e, st_, a):
+        addr = bv(a[1], 32)
+        st_.log.append(('P', list(st_.pc), addr))
+        v = z3.Select(st_.mem[pm].cells[0][1], addr)
+        v2 = z3.simplify(v)
+        if z3.is_bv_value(v2):
+            return st_, v2.as_long()
+        return st_, v
+    ex.intercepts[PREAD] = pread
